@@ -43,10 +43,21 @@ FORBIDDEN_RE = re.compile(
     r"type-in-type|impredicative-set)\b")
 
 
+MEM_LIMIT_BYTES = 12 * 1024 ** 3      # address-space cap for coqc / make children (runaway conversions)
+
+
+def _limit_mem():
+    import resource
+    try:
+        resource.setrlimit(resource.RLIMIT_AS, (MEM_LIMIT_BYTES, MEM_LIMIT_BYTES))
+    except Exception:
+        pass
+
+
 def sh(cmd, timeout=600, cwd=None, env=None, input=None):
     """Run a command, return (returncode, stdout+stderr)."""
     try:
-        p = subprocess.run(cmd, cwd=cwd, env=env, input=input, timeout=timeout,
+        p = subprocess.run(cmd, cwd=cwd, env=env, input=input, timeout=timeout, preexec_fn=_limit_mem,
                            stdout=subprocess.PIPE, stderr=subprocess.STDOUT, text=True)
         return p.returncode, p.stdout
     except subprocess.TimeoutExpired as e:
